@@ -7,7 +7,7 @@ tf = '/verif/.work/t/trace.ndjson'
 with open(tf, 'w') as g:
     for i in range(n):
         g.write(json.dumps(drive_core.run_case(gen_core.gen_case(seed, i, **kw))) + "\n")
-v, ex, st, outs = tlc.validate_traces(tf, '/verif/.work/t/val', {"ForallPreDropped"}, shards=16, explain=True)
+v, ex, st, outs = tlc.validate_traces(tf, '/verif/.work/t/val', {"ForallPreDropped","RepeatedFluentArg","GoalFluentUnchecked"}, shards=16, explain=True)
 print(collections.Counter((x[0], tuple(sorted(x[1]))) for x in v.values()), st)
 H = {json.loads(l)['id']: json.loads(l) for l in open(tf)}
 shown = collections.Counter()
